@@ -89,6 +89,17 @@ Theorem C06_counters_commute : forall (l l' : list (nat * soutcome)),
 Proof. exact counters_commute. Qed.
 Print Assumptions C06_counters_commute.
 
+(* the serial executions that C06_serialisable refers to do not depend on the order chosen for calls that REWRITE different
+   slots of the shared file (update mode): either order leaves the same bytes (the witness is C03_rewrites_witnesses) *)
+Theorem C06_serial_rewrites_order_independent : forall t1 s1 t2 s2 es,
+  Forall wf_entry es -> wf_entry (t1, s1) -> wf_entry (t2, s2) ->
+  no_collision t1 es -> no_collision t2 es ->
+  ~ In t1 (split_nl s2) -> ~ In t2 (split_nl s1) -> t1 <> t2 ->
+  update_entry t1 s1 (update_entry t2 s2 (render es)) =
+  update_entry t2 s2 (update_entry t1 s1 (render es)).
+Proof. exact updates_commute. Qed.
+Print Assumptions C06_serial_rewrites_order_independent.
+
 (* non-vacuity: every theorem of this file that has hypotheses has a concrete, non-trivial instance meeting ALL of them
    (lemmas <Theorem>_witness / <Theorem>_applied in Proofs/WitnessesP.v); a representative one is restated here *)
 From Snaps Require Import Proofs.WitnessesP.
